@@ -320,10 +320,11 @@ class Writer(BaseValidator):
         assert len(row) == len(self.cid.field_formats)
         result = []
         for field_index, field_value in enumerate(row):
-            field_value_length = len(field_value)
-            _, fixed_field_length = self._field_names_and_lengths[field_index]
-            if field_value_length < fixed_field_length:
-                field_value += " " * (fixed_field_length - field_value_length)
+            if isinstance(field_value, str):
+                field_value_length = len(field_value)
+                _, fixed_field_length = self._field_names_and_lengths[field_index]
+                if field_value_length < fixed_field_length:
+                    field_value += " " * (fixed_field_length - field_value_length)
             result.append(field_value)
         return result
 
@@ -331,12 +332,15 @@ class Writer(BaseValidator):
         assert row_to_write is not None
         assert self._delegated_writer is not None
 
-        if self.location.line >= self._header:
-            self.validate_row(row_to_write)
-        if self.cid.data_format.format == data.FORMAT_FIXED:
+        is_fixed = self.cid.data_format.format == data.FORMAT_FIXED
+        if is_fixed and (len(row_to_write) == len(self.cid.field_formats)):
+            # Validate the padded row so checks see the same values as when reading the written data. Otherwise
+            # for example "a" and "a " would be different keys for the writer but duplicates for a reader.
             actual_row_to_write = self._padded_fixed_row(row_to_write)
         else:
             actual_row_to_write = row_to_write
+        if self.location.line >= self._header:
+            self.validate_row(actual_row_to_write)
         self._delegated_writer.write_row(actual_row_to_write)
 
     def write_rows(self, rows_to_write):
